@@ -158,6 +158,7 @@ pub fn simplicity(j: &DJob) -> (usize, usize, usize, usize) {
         Edit::BlockRemoved { .. } | Edit::DefRemoved { .. } => 4,
         Edit::RenameQuoted { .. } | Edit::RenameQuotedUnicode { .. } | Edit::DefRenamed { .. } | Edit::RefRenamed { .. } => 5,
         Edit::NumToText { .. } => 6,
+        Edit::CloneDamaged { .. } => 9,
         Edit::NumOor { .. } => 7,
         _ => 8,
     };
